@@ -90,6 +90,49 @@ def rule_gain(repo, tier):
     if not ok:
         res.add(Finding('C13.GAIN', f, 'the Kalman gain applied to the innovation is not built from the propagated covariance only',
                         node=rets[0], construct='gain'))
+    # posterior covariance: in every matrix product of the update the gain acts from the LEFT on (C P^-) - (I - K C) P^-, P^- - K C P^-, P^- - K S K^T,
+    # Joseph form.  P^- K C is a different matrix unless P^- and K C commute (diagonal systems).
+    kd = None
+    for g in gains:
+        if any(dump(n) == pd for n in ast.walk(g.args[0])):
+            kd = dump(g.args[0])
+    if kd is not None:
+        def chain(n):
+            return chain(n.left) + [n.right] if isinstance(n, ast.BinOp) and isinstance(n.op, ast.MatMult) else [n]
+        tops = []
+        def collect(n, parent_is_mm=False):
+            if isinstance(n, ast.BinOp) and isinstance(n.op, ast.MatMult):
+                if not parent_is_mm:
+                    tops.append(n)
+                collect(n.left, True)
+                collect(n.right, False)
+            else:
+                for c_ in ast.iter_child_nodes(n):
+                    collect(c_, False)
+        # do not look inside the gain itself
+        class _CutK(ast.NodeTransformer):
+            def generic_visit(self, n):
+                if dump(n) == kd:
+                    return ast.Name('$K', ast.Load())
+                return super().generic_visit(n)
+        import copy as _copy
+        Pk = _CutK().visit(_copy.deepcopy(Pp))
+        collect(Pk)
+        nchains = 0
+        for t_ in tops:
+            fs = chain(t_)
+            pos = [i for i, x in enumerate(fs) if isinstance(x, ast.Name) and x.id == '$K']
+            post = [i for i, x in enumerate(fs) if isinstance(x, (ast.Attribute, ast.Call)) and any(isinstance(y, ast.Name) and y.id == '$K' for y in ast.walk(x))]
+            if not pos and not post:
+                continue
+            nchains += 1
+            okc = (not pos or pos[0] == 0) and all(i == len(fs) - 1 for i in post)
+            res.inst({'function': f.fq, 'update product': src(t_)[:60].replace('$K', 'K'), 'gain acts from the left': okc}, ('upd', src(t_)[:80]))
+            if not okc:
+                res.add(Finding('C13.GAIN', f, 'posterior covariance: in the product `%s` the gain K is not the leftmost factor; the Kalman update is P - K C P = (I - K C) P, '
+                                'and P K C equals it only when P and K C commute' % src(t_)[:70].replace('$K', 'K'), node=rets[0], construct='gain not leftmost in the covariance update'))
+        if nchains == 0:
+            res.add(Finding('C13.GAIN', f, 'the posterior covariance does not contain the gain in any matrix product', node=rets[0], construct='covariance update without gain'))
     # posterior mean = predicted + K e
     okm = isinstance(xp, ast.BinOp) and isinstance(xp.op, ast.Add) and any(_find_calls(s, 'state_transition') and not _find_calls(s, 'observation')
                                                                        for s in (xp.left, xp.right))
@@ -246,6 +289,26 @@ def rule_pf(repo, tier):
         ok = isinstance(y, ast.Name) and y.id == 'y' and bool(_find_calls(ye, 'generate_particles')) and _mentions_noise(R, 'R') \
             and not _mentions_noise(R, 'Q')
     chk('weights(y,ye,R)', ok, 'importance weights are not computed from (y, predicted observations of the particles, R)')
+    # the Gaussian likelihood uses the WHOLE covariance R (documented: N(y; h(x), R) for any SPD R): a body that reads R only through its diagonal is the
+    # likelihood of a different, uncorrelated noise model
+    lk = repo.func(PF, 'PF.relative_likelihood')
+    rp = lk.pos_params[3] if len(lk.pos_params) > 3 else None
+    if rp is not None:
+        parents = {}
+        for n_ in ast.walk(lk.node):
+            for c_ in ast.iter_child_nodes(n_):
+                parents[id(c_)] = n_
+        uses = [n_ for n_ in ast.walk(lk.node) if isinstance(n_, ast.Name) and n_.id == rp and isinstance(n_.ctx, ast.Load)]
+        def diag_only(n_):
+            par = parents.get(id(n_))
+            if isinstance(par, ast.Attribute) and par.attr in ('diagonal', 'diag'):
+                return True
+            if isinstance(par, ast.Call) and (dotted(par.func) or '').split('.')[-1] in ('diagonal', 'diag', 'diag_embed') and par.args and par.args[0] is n_:
+                return True
+            return False
+        full = [u for u in uses if not diag_only(u)]
+        chk('likelihood uses the full R', bool(uses) and bool(full), 'relative_likelihood reads the observation covariance only through its diagonal: for a correlated R '
+            'the importance weights are those of another noise model')
     # documentation, step 3: q = p(y | x^-_k) - the likelihood is evaluated at the PROPAGATED particle
     ok2 = False
     if rl and len(rl[0].args) == 3:
